@@ -448,6 +448,22 @@ def constraint_list_sweep(r, tier):
     return out
 
 
+def component_sweep():
+    """ONLY spec.component is edited after a successful unpack of a multi-component package (image and config stay):
+    every ordered pair of root / a / b, to and from a component that does not exist, and a round trip; both flavours."""
+    out = []
+    e0 = ENVS[0]
+    m = lambda comp: spec("multi", {"x": "a"}, comp)  # noqa: E731
+    for cluster in (False, True):
+        for c1 in ("", "a", "b"):
+            for c2 in ("", "a", "b", "zz"):
+                if c1 != c2:
+                    out.append(scenario(e0, m(c1), [PASS, edit(m(c2)), PASS, PASS], cluster=cluster))
+        out.append(scenario(e0, m("zz"), [PASS, edit(m("a")), PASS, PASS], cluster=cluster))
+        out.append(scenario(e0, m("a"), [PASS, PASS, edit(m("b")), PASS, edit(m("a")), PASS, edit(m("")), PASS, PASS], cluster=cluster))
+    return out
+
+
 def large_sweep():
     """Packages whose phase crosses the chunk limit: first deployment, unchanged second pass, edits between large
     packages (slices replaced and garbage collected), to and from a small package, config edit; both flavours.  No
@@ -618,7 +634,7 @@ def random_scenario(r):
 def gen(seed, tier):
     r = vlib.rng(seed, "C16")
     fixed = ([WITNESS] + classes() + unique_sweep() + faults_after_pull() + touch_sweep() + constraint_list_sweep(r, tier)
-             + large_sweep())
+             + large_sweep() + component_sweep())
     rest = corpus()
     if tier == "quick":
         out = fixed + r.sample(rest, min(len(rest), 60))
